@@ -8,6 +8,7 @@ import (
 	"github.com/palomachain/paloma/v2/x/consensus/keeper/consensus"
 	consensustypes "github.com/palomachain/paloma/v2/x/consensus/types"
 	evmtypes "github.com/palomachain/paloma/v2/x/evm/types"
+	valsettypes "github.com/palomachain/paloma/v2/x/valset/types"
 	"github.com/palomachain/paloma/v2/zzverif/models"
 	"github.com/palomachain/paloma/v2/zzverif/sym"
 )
@@ -39,6 +40,13 @@ func c06Load(env *Env, id uint64) consensustypes.QueuedSignedMessageI {
 }
 
 // c06Invariant checks the stored signatures of message id against its current bytes.
+// c06KeyOf[v] is the index (into models.EthAddrs) of the key validator v has registered now;
+// c06SignedWith[v] the one it had registered when its stored signature was accepted.
+var (
+	c06KeyOf      = []int{0, 1, 2, 3}
+	c06SignedWith = []int{-1, -1, -1, -1}
+)
+
 func c06Invariant(env *Env, id uint64, label string) {
 	m := c06Load(env, id)
 	if m == nil {
@@ -60,11 +68,11 @@ func c06Invariant(env *Env, id uint64, label string) {
 		// key = the one the validator has registered
 		var want []byte
 		for v := range Vals {
-			if Vals[v].Equals(sd.ValAddress) {
-				want = gethcommon.HexToAddress(models.EthAddrs[v]).Bytes()
+			if Vals[v].Equals(sd.ValAddress) && c06SignedWith[v] >= 0 {
+				want = gethcommon.HexToAddress(models.EthAddrs[c06SignedWith[v]]).Bytes()
 			}
 		}
-		sym.Assert(want != nil && gethcommon.BytesToAddress(want) == gethcommon.BytesToAddress(sd.PublicKey), label+"/stored-key-is-the-validators-registered-key")
+		sym.Assert(want != nil && gethcommon.BytesToAddress(want) == gethcommon.BytesToAddress(sd.PublicKey), label+"/stored-key-is-the-key-registered-when-signing")
 		for j := 0; j < i; j++ {
 			sym.Assert(!sigs[j].ValAddress.Equals(sd.ValAddress), label+"/validator-signs-at-most-once")
 		}
@@ -72,6 +80,26 @@ func c06Invariant(env *Env, id uint64, label string) {
 }
 
 func VerifC06_Signatures() {
+	L := 2
+	if sym.Tier() == "thorough" {
+		L = 3
+	}
+	c06Run(L, false)
+}
+
+// VerifC06_Rekey: a validator that has already signed re-registers another key
+// and signs again (operations: sign / re-register only).
+func VerifC06_Rekey() {
+	L := 2
+	if sym.Tier() == "thorough" {
+		L = 3
+	}
+	c06Run(L, true)
+}
+
+func c06Run(L int, rekeyFocus bool) {
+	c06KeyOf = []int{0, 1, 2, 3}
+	c06SignedWith = []int{-1, -1, -1, -1}
 	env := New(100)
 	env.AddChain(ChainA, 1)
 	nv := 3
@@ -102,13 +130,37 @@ func VerifC06_Signatures() {
 			panic(err)
 		}
 	}
-	L := 2
 	if sym.Tier() == "thorough" {
-		L = 3
 		actors = 3
 	}
+	if rekeyFocus {
+		// pre-state: validator 0 has a genuine signature on record
+		bts, _ := c06Load(env, id).GetBytesToSign(env.Cdc)
+		if err := env.Consensus.AddMessageSignature(env.Ctx, Vals[0], []*consensustypes.ConsensusMessageSignature{{Id: id, QueueTypeName: c06Queue, Signature: models.SignDigest(0, c06Digest(bts)), SignedByAddress: models.EthAddrs[0]}}); err != nil {
+			panic(err)
+		}
+		c06SignedWith[0] = 0
+	}
 	for step := 0; step < L; step++ {
-		switch sym.Choice("op", 3) {
+		op := 0
+		if rekeyFocus {
+			op = []int{0, 3}[sym.Choice("op", 2)]
+		} else {
+			op = sym.Choice("op", 4)
+		}
+		switch op {
+		case 3: // a validator re-registers another external-chain key (the spare one)
+			v := sym.Choice("rekeyed", actors)
+			if c06KeyOf[v] == 3 {
+				continue
+			}
+			cctx, commit := env.Ctx.CacheContext()
+			err := env.Valset.AddExternalChainInfo(cctx, Vals[v], []*valsettypes.ExternalChainInfo{{ChainType: "evm", ChainReferenceID: ChainA, Address: models.EthAddrs[3], Pubkey: gethcommon.HexToAddress(models.EthAddrs[3]).Bytes()}})
+			if err == nil {
+				commit()
+				c06KeyOf[v] = 3
+				sym.Reach("key-re-registered")
+			}
 		case 0: // a validator submits a signature
 			v := sym.Choice("signer", actors)
 			cur := c06Load(env, id)
@@ -119,18 +171,19 @@ func VerifC06_Signatures() {
 			var sig []byte
 			switch sym.Choice("sig-kind", 4) {
 			case 0: // genuine, over the current bytes
-				sig = models.SignDigest(v, c06Digest(bts))
+				sig = models.SignDigest(c06KeyOf[v], c06Digest(bts))
 			case 1: // genuine but over bytes published earlier (stale)
-				sig = models.SignDigest(v, c06Digest(published[sym.Choice("which-bytes", len(published))]))
+				sig = models.SignDigest(c06KeyOf[v], c06Digest(published[sym.Choice("which-bytes", len(published))]))
 			case 2: // signed with somebody else's key
-				sig = models.SignDigest((v+1)%nv, c06Digest(bts))
+				sig = models.SignDigest(c06KeyOf[(v+1)%nv], c06Digest(bts))
 			case 3: // arbitrary bytes
 				sig = sym.Bytes("sig", 65)
 			}
 			cctx, commit := env.Ctx.CacheContext()
-			err := env.Consensus.AddMessageSignature(cctx, Vals[v], []*consensustypes.ConsensusMessageSignature{{Id: id, QueueTypeName: c06Queue, Signature: sig, SignedByAddress: models.EthAddrs[v]}})
+			err := env.Consensus.AddMessageSignature(cctx, Vals[v], []*consensustypes.ConsensusMessageSignature{{Id: id, QueueTypeName: c06Queue, Signature: sig, SignedByAddress: models.EthAddrs[c06KeyOf[v]]}})
 			if err == nil {
 				commit()
+				c06SignedWith[v] = c06KeyOf[v]
 				sym.Reach("signature-accepted")
 			} else {
 				sym.Reach("signature-rejected")
